@@ -22,6 +22,14 @@ type Found struct {
 	Log         []string `json:"log"`
 	LogHash     string   `json:"log_hash"`
 	Sample      any      `json:"case,omitempty"`
+	// Sequence is set by the driver when the minimised trace does not reproduce in a
+	// fresh process, i.e. the violation depends on state an earlier run of the same
+	// worker process left behind (a package-level variable of go-sse): the replay then
+	// re-executes that worker's runs 0..SeqRuns-1 in order.
+	Sequence   bool `json:"sequence,omitempty"`
+	SeqWorker  int  `json:"sequence_worker,omitempty"`
+	SeqWorkers int  `json:"sequence_workers,omitempty"`
+	SeqRuns    int  `json:"sequence_runs,omitempty"`
 }
 
 // WorkerResult is what one worker process reports to the driver.
@@ -324,8 +332,15 @@ func replayMain(t *testing.T, w *World, prop, tier, path string) {
 		fmt.Fprintf(os.Stderr, "replay: %v\n", err)
 		os.Exit(2)
 	}
-	ch := NewReplayChooser(f.Trace)
-	o := w.Run(&RunCtx{T: t, Ch: ch, Prop: prop, Tier: tier, KeepLog: true})
+	var o *Outcome
+	if f.Sequence {
+		for n := 0; n < f.SeqRuns; n++ {
+			idx := uint64(n)*uint64(f.SeqWorkers) + uint64(f.SeqWorker)
+			o = w.Run(&RunCtx{T: t, Ch: NewSearchChooser(f.Seed, idx), Prop: prop, Tier: tier, KeepLog: n == f.SeqRuns-1})
+		}
+	} else {
+		o = w.Run(&RunCtx{T: t, Ch: NewReplayChooser(f.Trace), Prop: prop, Tier: tier, KeepLog: true})
+	}
 	type rep struct {
 		Reproduced bool     `json:"reproduced"`
 		SameLog    bool     `json:"same_log"`
